@@ -18,12 +18,13 @@ FT = {
     "V": {
         "ty": V, "caps": TOTAL, "dom": [f"{V}({i})" for i in range(6)],
         "key": {
-            "ord": [("::dxrt::k_ord(&$)", TOTAL), ("::dxrt::kp_ord(&$)", PARTIAL), ("($.0 % 2)", TOTAL),
+            "ord": [("::dxrt::k_ord(&$)", TOTAL), ("::dxrt::kp_ord(&$)", PARTIAL), ("($.0 % 2)", TOTAL), ("$", TOTAL),
                     ("{ let x = &$; ::dxrt::k_ord(x) }", TOTAL)],
-            "partial_ord": [("::dxrt::k_pord(&$)", TOTAL), ("::dxrt::kp_pord(&$)", PARTIAL), ("[$.0 % 3, $.0][0]", TOTAL)],
-            "eq": [("::dxrt::k_eq(&$)", TOTAL), ("($.0 / 2, [$.0 / 2])", TOTAL)],
-            "partial_eq": [("::dxrt::k_peq(&$)", TOTAL), ("::core::cmp::min($.0 / 3, ($).0)", TOTAL)],
-            "hash": [("::dxrt::k_hash(&$)", TOTAL), ("(($.0 + 1) / 2) as u32", TOTAL)],
+            "partial_ord": [("::dxrt::k_pord(&$)", TOTAL), ("::dxrt::kp_pord(&$)", PARTIAL), ("[$.0 % 3, $.0][0]", TOTAL), ("$", TOTAL)],
+            # (`key = $`: the field itself is the key - it still takes the place of less specific attributes)
+            "eq": [("::dxrt::k_eq(&$)", TOTAL), ("($.0 / 2, [$.0 / 2])", TOTAL), ("$", TOTAL)],
+            "partial_eq": [("::dxrt::k_peq(&$)", TOTAL), ("::core::cmp::min($.0 / 3, ($).0)", TOTAL), ("$", TOTAL)],
+            "hash": [("::dxrt::k_hash(&$)", TOTAL), ("(($.0 + 1) / 2) as u32", TOTAL), ("$", TOTAL)],
         },
         "by": {
             "ord": ["::dxrt::b_ord", "|a, b| ::dxrt::b_ord(a, b)"],
@@ -197,8 +198,10 @@ def gen_spec(rng, derived, entry=None, kind=None, max_vals=40, allow_generic=Tru
     # with #[debug(ignore)] on some fields - none of which may change a comparison or the hash feed
     if rng.random() < 0.25:
         spec["split"] = rng.randint(1, 4)
+    if rng.random() < 0.2:
+        spec["fdoc"] = True
     if kind == "enum" and rng.random() < 0.3:
-        spec["disc"] = True
+        spec["disc"] = rng.choice([True, True, "mixed"])
     if rng.random() < 0.2:
         spec["codebug"] = rng.choice(["first", "last"])
         for v in variants:
@@ -241,6 +244,9 @@ def values(spec):
 
 def field_attr_text(f, spec):
     attrs = M.render_attrs(f["combo"], f["key"], f["by"])
+    if attrs and spec.get("fdoc"):
+        # foreign attributes around the helper attributes (a doc comment is a `name = value` attribute)
+        attrs = ['#[doc = "d"]'] + attrs[:1] + ["#[allow(unused)]"] + attrs[1:]
     return " ".join(attrs)
 
 
@@ -293,6 +299,9 @@ def type_text(spec, name="Ty", derive_attr=None, field_attrs=True, extra_type_at
     # spec["disc"]: explicit discriminants that DEcrease in declaration order (cross-variant order is by declaration)
     nv = len(body)
     disc = (lambda vi: f" = {(nv - vi) * 3}") if spec.get("disc") else (lambda vi: "")
+    if spec.get("disc") == "mixed":
+        # explicit on the first variant only: its value (1) equals the position of the second variant
+        disc = lambda vi: " = 1" if vi == 0 else ""
     rep = "#[repr(u8)]\n" if spec.get("disc") else ""
     vs = ", ".join(f"V{vi}{b}{disc(vi)}" for vi, b in body)
     return f"{head}{rep}pub enum {name}{g} {{ {vs} }}"
